@@ -193,6 +193,12 @@ func c20BuildExhaustive() []c20Case {
 	}
 	add("struct", "heading/atx", "", "####### seven")
 	add("struct", "heading/atx", "", "#nospace")
+	// a trailing {...} is heading text in CommonMark / GFM, not an attribute list
+	for _, tail := range []string{"{#setup}", "{.lead}", "{k=v}", "{}", "{#a .b c=d}"} {
+		add("struct", "heading/atx-trailing-braces", "", "# Install "+tail)
+		add("struct", "heading/atx-trailing-braces", "", "> ## Nested "+tail)
+		add("struct", "heading/setext-trailing-braces", "", "Install "+tail+"\n===")
+	}
 	// tables
 	aligns := []string{"---", ":--", "--:", ":-:"}
 	for cols := 1; cols <= 3; cols++ {
